@@ -80,8 +80,10 @@ impl Prechecker for DefaultPrechecker {
                 None
             }
             PrecheckData::NotCheck { pinned_or_king } => {
-                if !pinned_or_king.has(mv.src()) {
+                if !pinned_or_king.has(mv.src()) && mv.kind() != MoveKind::Enpassant {
                     // The piece is not pinned and is not a king, so the move is definitely legal.
+                    // Enpassant is excluded: it removes two pawns from the board at once, so it
+                    // can uncover an attack on the king even when the capturing pawn is not pinned.
                     Some(true)
                 } else {
                     None
